@@ -36,7 +36,7 @@ ASSUMPTIONS = [
 ]
 REQUIRED_MONITORS = ['steps:normal_mode_checked', 'steps:regenerating_checked', 'followup:fresh_process_pass', 'runs:pytest_driven',
                      'followup:same_process_pass', 'runs:forked', 'runs:argv_driven', 'runs:api_driven']
-REQUIRED_CLASSES = ['assert=string', 'assert=textfile', 'assert=textfiles', 'assert=binary', 'assert=df_parquet',
+REQUIRED_CLASSES = ['actual_path=source-parquet', 'assert=string', 'assert=textfile', 'assert=textfiles', 'assert=binary', 'assert=df_parquet',
                     'assert=df_csv', 'assert=ondisk', 'mode=normal', 'mode=all', 'mode=kinds', 'ref=match', 'ref=differ',
                     'ref=missing'] + ['spelling=%s' % s for s in ('-W', '--write-all', '--W', '-w', '--w', '--write', 'pytest --write-all', 'pytest --write')]
 KINDS = [None, 'csv', 'table', 'graph', 'other', 'DEFAULT', 'parquet', 'text']
@@ -90,12 +90,16 @@ def gen_step(rng, i):
         if a != 'df_csv' and rng.random() < 0.4:
             # column types a parquet reference has to keep exactly for the regenerated reference to pass
             step['extra'] = rng.sample(['dt_ns', 'dt_us', 'dt_tz', 'Int64', 'cat', 'float32', 'uint8', 'bool'], rng.randint(1, 3))   # (not datetime64[s]: parquet itself has no such unit)
+        if a != 'ondisk' and rng.random() < 0.3:
+            # actual_path (documented: used in messages only) names the file the frame was derived from - an existing file
+            # whose content is NOT the asserted frame (a column fewer, other values), or a file that is not there
+            step['actual_path'] = rng.choice(['source-parquet', 'source-parquet', 'source-csv', 'missing'])
     return step
 
 
 def gen_setting(rng, i):
     mode = ['normal', 'all', 'kinds'][i % 3]
-    kinds = rng.sample(['csv', 'table', 'graph', 'other', 'parquet', 'text'], rng.randint(1, 3)) if mode == 'kinds' else []
+    kinds = rng.sample(['csv', 'table', 'graph', 'other', 'parquet', 'text'], rng.choice([1, 2, 3, 3])) if mode == 'kinds' else []
     via = ['api', 'argv', 'api', 'argv', 'api', 'pytest'][(i // 3) % 6]
     s = {'mode': mode, 'kinds': kinds, 'via': via, 'argv': [], 'spelling': None}
     if via == 'argv':
@@ -135,9 +139,9 @@ def spell_kinds(rng, kinds):
         # a stray comma (what the shell hands over for `--write table, graph`): an empty name names no kind
         j = ','.join(kinds)
         return rng.choice([[j + ','], [',' + j], [j.replace(',', ',,', 1) if ',' in j else j + ',']])
-    if len(kinds) == 1 or k < 0.35:
+    if len(kinds) == 1 or k < 0.25:
         return list(kinds)
-    if k < 0.65:
+    if k < 0.5:
         return [','.join(kinds)]
     cut = rng.randint(1, len(kinds) - 1)
     parts = [','.join(kinds[:cut])] + ([','.join(kinds[cut:])] if rng.random() < 0.5 else list(kinds[cut:]))
@@ -276,7 +280,8 @@ def run_case(ctx, case):
         if e is None:
             continue
         sel = selected(st, setting)
-        cls = mode_cls + [('assert=' + st['assert'],), ('ref=' + st['ref_state'],), ('kind=%s' % st['kind'],), ('selected=%d' % sel,)]
+        cls = mode_cls + [('assert=' + st['assert'],), ('ref=' + st['ref_state'],), ('kind=%s' % st['kind'],), ('selected=%d' % sel,)] + \
+            ([('actual_path=' + st['actual_path'],)] if st.get('actual_path') else [])
         rec.case({'step': st, 'setting': setting, 'data_location': case['data_location']},
                  nontrivial=sel or st['ref_state'] != 'match', cls=cls)
         touched = sorted(set(e['diff']['created'] + e['diff']['removed'] + e['diff']['modified'] + e['ref_events']))
